@@ -262,7 +262,9 @@ impl BreakerBase {
         #[cfg(flea1lt_sentinel_rust_verif)]
         crate::verif::sched::point("cb:o2h");
         let mut state = self.state.lock().unwrap();
-        if *state == State::Open {
+        // the retry deadline is checked again under the lock: between the caller's check and this
+        // point another thread may have probed, failed and re-opened the breaker with a new deadline
+        if *state == State::Open && self.retry_timeout_arrived() {
             *state = State::HalfOpen;
             let listeners = state_change_listeners().lock().unwrap();
             for listener in &*listeners {
